@@ -71,6 +71,12 @@ def run(ctx) -> None:
     from .c08 import check_default_existential
 
     check_default_existential(ctx, "C05.R5")
+    # a nested graph node whose input is satisfied by an inner binding must be *scheduled* on it as well: the readiness
+    # test accepts exactly the sources the resolver can return (inner binding included), wherever the outer merged
+    # table happens to lack it
+    from .c01 import check_readiness_vs_resolver
+
+    check_readiness_vs_resolver(ctx, "C05.R5")
 
     for name in ("has_default_for", "get_default_for"):
         m = gn.methods.get(name)
